@@ -595,11 +595,24 @@ Fixpoint says (e : env) (x : enode) (t : inode) : bool :=
       && Nat.eqb (length eats) (length tats)
       && forallb (fun ea => existsb (fun ta => qname_eqb (fst ea) (fst ta)
                                                && atoms_match e' (snd ea) (snd ta)) tats) eats
+      (* children in order; consecutive data events are one text node in the document, so
+         one text node may be consumed by several expected data items, piece by piece *)
       && (fix go (es : list enode) (ts : list inode) : bool :=
-            match es, ts with
-            | [], [] => true
-            | e1 :: es', t1 :: ts' => says e' e1 t1 && go es' ts'
-            | _, _ => false
+            match es with
+            | [] => match ts with [] => true | _ => false end
+            | EData atoms :: es' =>
+                match ts with
+                | IText s :: ts' =>
+                    existsb (fun i => atoms_match e' atoms (firstn i s)
+                                      && go es' (if Nat.eqb i (length s) then ts' else IText (skipn i s) :: ts'))
+                            (seq 0 (S (length s)))
+                | _ => false
+                end
+            | (EElem _ _ _ as x1) :: es' =>
+                match ts with
+                | t1 :: ts' => says e' x1 t1 && go es' ts'
+                | [] => false
+                end
             end) ekids tkids
   | _, _ => false
   end.
